@@ -407,7 +407,14 @@ def pool_map(fn, items, procs=None, chunksize=None):
     if len(items) <= 1 or procs == 1:
         return [fn(x) for x in items]
     ctx = mp.get_context('fork')
+    import gc
+    # the parent may hold gigabytes of recorded traces (thorough tiers): keep the children's garbage collector from
+    # touching - and thereby un-sharing - every inherited object (16 workers x 10 GB ended in the OOM killer, and a
+    # Pool whose worker was killed never returns)
+    gc.collect()
+    gc.freeze()
     pool = ctx.Pool(procs, maxtasksperchild=None)
+    gc.unfreeze()
     try:
         out = pool.map(fn, items, chunksize or max(1, len(items) // (procs * 4)))
         pool.close()        # let the workers end by themselves (tools/cov.sh collects their line coverage at exit)
